@@ -202,7 +202,8 @@ class Enc:
     """encoding options; canonical=True gives the compact canonical encoding"""
 
     def __init__(self, rng, canonical=False, junk=True, indexed=True, list_kinds=('lo', 'la', 'reg'),
-                 opt_kinds=('ixo', 'bym', 'bim', 'unm'), widths=WIDTHS, weird_empty=0.0, special=True, strided=0.0, ix_prob=0.12):
+                 opt_kinds=('ixo', 'bym', 'bim', 'unm'), widths=WIDTHS, weird_empty=0.0, special=True, strided=0.0, ix_prob=0.12,
+                 nd=0.2):
         self.rng = rng
         self.ix_prob = ix_prob      # probability of an IndexedArray indirection at a node (0.3 over record nodes)
         self.canonical = canonical
@@ -214,6 +215,7 @@ class Enc:
         self.weird_empty = weird_empty
         self.special = special
         self.strided = strided
+        self.nd = nd              # probability that a regular level over a plain leaf array becomes an n-d NumpyArray dimension
         self.decisions = []      # (is_regular, size) per list level, in encoding order
         self.replay = None       # when set: list of decisions to follow (canonical re-encoding keeps the type)
         self.stats = {}
@@ -356,6 +358,20 @@ def encode_list(enc, it, lists, chars=None):
         size = forced_size if forced_size is not None else (sizes.pop() if sizes else rng.choice([0, 1, 2]))
         enc.decisions.append((True, size))
         flat = [x for l in lists for x in l]
+        if not chars and not enc.canonical and enc.nd and rng.random() < enc.nd:
+            # the regular level as a dimension of an n-d NumpyArray (same type and value as the RegularArray chain):
+            # contiguous, or a strided view (transposed storage, steps, an offset) -- n-d leaves below lists and as
+            # record fields, which from_iter never builds but ak.Array(np.ndarray) / from_numpy do
+            inner = encode(enc, it, flat)
+            if inner[0] == 'np' and inner[2][0] == len(flat):
+                enc.count('ndnp')
+                shape = [n, size] + list(inner[2][1:])
+                data = list(inner[3])
+                if rng.random() < 0.5 or not data or not enc.strided:
+                    # (strided n-d views only where the check opted into strided leaves: its readers know 'nps')
+                    return ['np', inner[1], shape, data]
+                return strided_nd(enc, inner[1], shape, data)
+            return ['reg', size, n, inner]
         extra = jv(max(size - 1, 0))[:max(size - 1, 0)] if size > 0 else jv()
         return ['reg', size, n, content(flat + extra)]
     enc.decisions.append((False, None))
@@ -396,6 +412,44 @@ def encode_list(enc, it, lists, chars=None):
         flat.extend(jv(1))
     extra_stops = [0] * (rng.choice([0, 0, 1]) if enc.junk else 0)
     return ['la', w, starts, stops + extra_stops, content(flat)]
+
+
+def strided_nd(enc, dt, shape, data):
+    """the C-ordered [data] of [shape] stored as a strided view: axes stored in a permuted order, with steps and an offset"""
+    rng = enc.rng
+    nd = len(shape)
+    perm = list(range(nd))
+    rng.shuffle(perm)                       # storage order of the axes (perm[0] slowest)
+    step = [rng.choice([1, 1, 2]) for _ in range(nd)]
+    pshape = [max(shape[a], 1) * step[a] for a in perm]          # physical extents in storage order
+    pstr = [0] * nd                        # stride (in items) of each stored axis
+    acc = 1
+    for j in range(nd - 1, -1, -1):
+        pstr[j] = acc
+        acc *= pshape[j]
+    strides = [0] * nd
+    for j, a in enumerate(perm):
+        strides[a] = pstr[j] * step[a]
+    pre = rng.randint(0, 2)
+    total = pre + acc + rng.randint(0, 2)
+    t = ('leaf', dt)
+    buf = [junk_leaf(enc, t) for _ in range(total)]
+    # place the items
+    idx = [0] * nd
+    k = 0
+    count = 1
+    for d in shape:
+        count *= d
+    for k in range(count):
+        rem = k
+        pos = pre
+        for a in range(nd - 1, -1, -1):
+            i = rem % shape[a]
+            rem //= shape[a]
+            pos += i * strides[a]
+        buf[pos] = data[k]
+    enc.count('ndnps')
+    return ['nps', dt, list(shape), strides, pre, buf]
 
 
 def encode_opt(enc, it, vals):
